@@ -1,6 +1,7 @@
 package main
 
 import (
+	"fmt"
 	"sort"
 	"strconv"
 	"strings"
@@ -211,7 +212,15 @@ func runSeqMap(p *SeqProgram, tr int, tw *TraceWriter) {
 	prev := m.Size()
 	for _, op := range p.Ops {
 		e := &Event{Ev: "op", Tr: tr, Op: op.Op, K: op.K, V: op.V, Fn: op.Fn, Rv: Nil, C0: prev, Lo: op.Lo, Hi: op.Hi}
-		runMapOp(m, op, e)
+		func() {
+			// no valid key may make an operation panic (C10): a panic becomes an observation no spec action matches
+			defer func() {
+				if p := recover(); p != nil {
+					e.Rv, e.Note = "PANIC", fmt.Sprint(p)
+				}
+			}()
+			runMapOp(m, op, e)
+		}()
 		e.C1 = m.Size()
 		prev = e.C1
 		tw.Write(e)
@@ -282,6 +291,8 @@ func runMapOp(m MapAPI, op SeqOp, e *Event) {
 				}
 			}
 		}
+	case "Scribble":
+		scribble()
 	case "Clear":
 		m.Clear()
 	case "Size":
